@@ -246,11 +246,63 @@ def check_case(run, case):
     finally:
         repo.drop_rules(name)
 
+def check_tiny(run, case):
+    """Very improbable but derivable strings (eight segments of forty values each: p about 1e-13): what password_scorer.py reports for a string - on standard
+    output and in an -o FILE - is the score of that string (relative 1e-9), however small."""
+    import random
+    from .. import cli, trainer
+    rng = random.Random(case['hseed'])
+    words = ['love', 'blue', 'star', 'king', 'moon', 'fire', 'wall', 'rain', 'gold', 'fish', 'home', 'work', 'snow', 'ball', 'hand', 'book', 'tree', 'road', 'ship', 'lamp']
+    pws = []
+    for i in range(40):
+        pws.append(''.join(rng.choice(words) + '%02d' % rng.randint(0, 99) + rng.choice('!#%&*+=?') for _ in range(3))[:-1])
+    name, path = repo.new_rules_dir('c13t')
+    sdir = repo.scratch()
+    tf = os.path.join(sdir, f'c13tiny_{os.getpid()}.txt'); of = tf + '.out'
+    try:
+        res = trainer.train(('\n'.join(pws) + '\n').encode('ascii'), path, encoding='ascii', coverage=0.6, ngram=3, alphabet_size=100, max_len=21)
+        if not res.ok:
+            run.inconc('training did not complete'); return
+        sc = load_scorer(path)
+        mine = {p_: sc.parse(p_)[2] for p_ in dict.fromkeys(pws)}
+        tiny = [p_ for p_, v in mine.items() if 0 < v < 1e-10]
+        if len(tiny) < 5:
+            run.inconc('no tiny probabilities in this training'); return
+        open(tf, 'wb').write(('\n'.join(mine) + '\n').encode('ascii'))
+        for how in ('stdout', 'file'):
+            args = ['-r', name, '-i', tf] + (['-o', of] if how == 'file' else [])
+            out, err, rc, to = cli.run_cli('password_scorer.py', args, stdin_mode='devnull', timeout=120, max_out=16 << 20)
+            run.ev('scorer_cli_runs'); run.ev('scorer_runs_on_tiny_probabilities')
+            if to:
+                continue
+            body = open(of, 'rb').read() if how == 'file' and os.path.exists(of) else out
+            seen = 0
+            for line in body.decode('ascii', 'replace').split('\n'):
+                f = line.split('\t')
+                if len(f) != 4 or f[0] not in mine:
+                    continue
+                try:
+                    p_ = float(f[2])
+                except ValueError:
+                    continue
+                seen += 1
+                if not (abs(mine[f[0]] - p_) <= 1e-9 * max(p_, mine[f[0]])):
+                    run.violation(f'password_scorer.py ({how}) reports {f[0]!r} with probability {f[2]} ; scoring exactly that string gives {mine[f[0]]!r}', case, observed=line[:160]); return
+            run.ev('tiny_probability_records_compared', seen)
+        run.case(h(['tiny', case['hseed']]))
+    finally:
+        for f_ in (tf, of):
+            if os.path.exists(f_):
+                os.remove(f_)
+        repo.drop_rules(name)
+
 def run(run, rng):
     run.required_events = ['scored', 'nonzero_scores', 'emails_classified', 'websites_classified', 'history_independence_checked', 'limit_variants_checked']
     run.min_distinct = 20
     run.assumptions = ['guesser language = default flags, non-Markov pre-terminals (the PCFG probability of the scorer does not cover OMEN guesses)',
                        'probabilities compared with relative tolerance 1e-9', 'candidates containing letters outside the one-to-one case domain are the recorded finding F-C13']
+    if run.shard[0] == 1 % run.shard[1]:
+        run.guard({'tiny': True, 'hseed': rng.getrandbits(32)}, check_tiny, seconds=300)
     for i in range(N[run.tier]):
         case = trained.gen_train_case(rng, max_len_choices=(21,), coverages=(0.6, 0.3, 1.0))
         if case['encoding'] == 'utf-8' and i % 4 == 3:
@@ -259,4 +311,7 @@ def run(run, rng):
         run.guard(case, check_case, seconds=300)
 
 def replay(run, case):
-    check_case(run, case['case'])
+    if case['case'].get('tiny'):
+        check_tiny(run, case['case'])
+    else:
+        check_case(run, case['case'])
